@@ -2,7 +2,7 @@
 From Coq Require Import List Arith NArith ZArith Lia Bool.
 Import ListNotations.
 From NTRIP Require Import Base Time Frame FrameProofs Net Pipe.
-Arguments outs {St V Ev}.
+Arguments outs {St V Ev}. Arguments chans {St V Ev}. Arguments closed {V}.
 
 Definition frame_flush (t0 : Z) (acc : list N) : list msg :=
   match handle_stream (new_handler t0) acc with Ok (ms, _) => ms | _ => [] end.
@@ -36,4 +36,35 @@ Proof.
   split; [exact Hle|]. intros Hf i Hi. rewrite (Hfin Hf).
   rewrite (fin_sinks N msg (list N) _ _ k live cap0 cap1 caps input [] i Hi).
   rewrite seqrun_acc. cbn [app]. unfold frame_flush. rewrite Hms. reflexivity.
+Qed.
+
+(* C02 with channels and schedules: whatever the capacities of the byte channel, the message
+   channel and the consumer's channel, and however producer, framer and consumer are
+   scheduled, every execution is finite and ends with the consumer holding messages whose raw
+   bytes concatenate to the input, none empty, the framer halted and the message channel
+   closed (the framer's program closes it at one point only, and a second close would leave
+   the process blocked instead of halted). *)
+Theorem lossless_every_schedule : forall t0 (input : list N) cap0 cap1 capc,
+  (1 <= cap0)%nat -> (1 <= cap1)%nat -> (1 <= capc)%nat ->
+  exists n, forall m c,
+    steps _ (nstep _ _ _ (Pipe.prog N msg (list N) (fun acc b => (acc ++ [b], [])) (frame_flush t0) 1 (fun _ => true))
+                   Pipe.sender Pipe.receiver (SkDone _ _ _)) m
+          (Pipe.init N msg (list N) 1 cap0 cap1 [capc] input []) c ->
+    (m <= n)%nat /\
+    (final_config _ _ _ (Pipe.prog N msg (list N) (fun acc b => (acc ++ [b], [])) (frame_flush t0) 1 (fun _ => true))
+                  Pipe.sender Pipe.receiver (SkDone _ _ _) c ->
+     concat (map raw (sink_out N msg (list N) c 0)) = input /\
+     Forall (fun x => raw x <> []) (sink_out N msg (list N) c 0) /\
+     halted N msg (list N) (fun acc b => (acc ++ [b], [])) (frame_flush t0) 1 (fun _ => true) c 1 /\
+     closed (nth 1 (chans c) (dchan _)) = true).
+Proof.
+  intros t0 input cap0 cap1 capc H0 H1 Hc.
+  destruct (handle_stream_lossless (new_handler t0) input) as (ms & h' & Hms & Hcat & Hne & _).
+  destruct (pipeline_every_schedule N msg (list N) (fun acc b => (acc ++ [b], [])) (frame_flush t0) 1 (fun _ => true)
+              cap0 cap1 [capc] input [] H0 H1 eq_refl (Forall_cons _ Hc (Forall_nil _))) as [n Hn].
+  exists n. intros m c Hm. destruct (Hn m c Hm) as (Hle & _ & Hfin).
+  split; [exact Hle|]. intros Hf. rewrite (Hfin Hf).
+  rewrite (fin_sinks N msg (list N) _ _ 1 (fun _ => true) cap0 cap1 [capc] input [] 0 (le_n 1)).
+  rewrite seqrun_acc. cbn [app]. unfold frame_flush. rewrite Hms.
+  split; [exact Hcat|]. split; [exact Hne|]. split; reflexivity.
 Qed.
